@@ -47,10 +47,18 @@ def time_limit(seconds):
         signal.signal(signal.SIGALRM, old)
 
 
+_scratch_dir = [None]
+
+
 def scratch_path(name):
-    d = os.path.join(core.SCRATCH, "flob-%d" % os.getpid())
-    os.makedirs(d, exist_ok=True)
-    return os.path.join(d, name)
+    """a file under /verif/.scratch/flob-<pid>/, removed when the process exits"""
+    if _scratch_dir[0] is None:
+        import atexit, shutil
+        d = os.path.join(core.SCRATCH, "flob-%d" % os.getpid())
+        os.makedirs(d, exist_ok=True)
+        _scratch_dir[0] = d
+        atexit.register(shutil.rmtree, d, True)
+    return os.path.join(_scratch_dir[0], name)
 
 
 def build(text, period, name="case.flo"):
